@@ -248,9 +248,9 @@ def ob_ctor(C, n):
         fp = ex.call(C.M('from_pairs'), [SliceRef(pairs, 0, n)])
         ident = ex.call(C.M('identity'), [VS_sorted(ex, K)])
         cell = {'m': fp}
-        idx = None
+        idx = None; _d0 = ex.depth()
         try: idx = ('ok', dd(ex.call_callee('<slotmap::SlotMap as Index<slot::Slot>>::index', [Ref(cell, 'm'), slot(q)])).f[0])
-        except Panic as p: idx = ('panic', p.msg); del ex.stack[:]
+        except Panic as p: idx = ('panic', p.msg); ex.unwind_to(_d0)
         return fp, ident, idx
     def obl(ex, r):
         fp, ident, idx = r; pres, val = ref_get(list(zip(K, V)), q); c = content(fp); pr, vr = ref_get(c, q)
